@@ -1,6 +1,6 @@
 (* C08 — follower event streams are always protocol-conformant. Statements only. *)
 From Coq Require Import List NArith Bool.
-Require Import P.Model.Base P.Model.Reader P.Model.Walk P.Spec.Events P.Proofs.WalkInv P.Proofs.ReaderConf.
+Require Import P.Model.Base P.Model.Reader P.Model.Walk P.Model.Builder P.Spec.Events P.Spec.Graph P.Proofs.WalkInv P.Proofs.ReaderConf P.Proofs.C12_Final P.Proofs.DfsOrderClosed P.Proofs.BuilderMore.
 
 (* every string, accepted or not: the stream up to the error is conformant *)
 Theorem C08_reader_conformant : forall s : list N, conformant (snd (rd s)) = true.
@@ -10,5 +10,12 @@ Theorem C08_walk_conformant : forall g : list atom,
   let '(r, h) := walk g in r <> WPanic 1 /\ r <> WFuel /\ conformant h = true.
 Proof. exact walk_safe. Qed.
 
+(* on well-formed lists the joins come in matched pairs, one on each atom of the bond, and nothing stays open *)
+Theorem C08_walk_joins_matched : forall g h, wf g = true -> safe_graph g -> walk g = (WOk, h) -> joins_matched h = true.
+Proof.
+  intros g h Hwf Hs Hw. pose proof (walk_safe g) as Hsafe. rewrite Hw in Hsafe. destruct Hsafe as [_ [_ Hc]].
+  exact (build_ok_joins_matched h _ Hc (C12_closed_form g h Hwf Hs Hw)).
+Qed.
 Print Assumptions C08_reader_conformant.
+Print Assumptions C08_walk_joins_matched.
 Print Assumptions C08_walk_conformant.
